@@ -515,7 +515,12 @@ func (x *World) observeEntity(e ecs.Entity) map[string]interface{} {
 	m := w.Mask(e)
 	comps := x.maskIDs(&m)
 	alt := []interface{}{}
-	ids := idsToInts(w.Ids(e))
+	rawIds := w.Ids(e)
+	ids := idsToInts(rawIds)
+	// the result is documented as the caller's own copy: use it as scratch space, as a caller may
+	for i := range rawIds {
+		rawIds[i] = rawIds[0]
+	}
 	if !sameInts(ids, comps) {
 		alt = append(alt, map[string]interface{}{"view": "Ids", "ids": ids})
 	}
